@@ -146,7 +146,7 @@ def g_recover(st):
             faults = [{'kind': 'EOF', 'at': i}]
             what = 'eof-open'
     return {'mode': 'recover', 'profile': d.profile, 'plan': 'tokens', 'wire': wire,
-            'faults': faults, 'form': _form(st), 'skip_envs': [], 'recover': bool(faults),
+            'paths': d.paths, 'faults': faults, 'form': _form(st), 'skip_envs': [], 'recover': bool(faults),
             'what': what, 'depth': d.max_depth()}
 
 
@@ -213,7 +213,7 @@ def align(D, T, closers, allow_insert=True):
     """Is T == D with (a) closers inserted and (b) whitespace runs of D that
     stand directly before '{' or '[' dropped?  Returns (ok, n_inserted, why)."""
     if D == T:
-        return True, 0, ''
+        return True, 0, '', None
     nD, nT = len(D), len(T)
     # droppable[i]: D[i] is whitespace whose run is directly followed by { or [
     droppable = [False] * nD
@@ -239,7 +239,7 @@ def align(D, T, closers, allow_insert=True):
         nxt = {}
         for (i, j), ins in sorted(frontier.items()):
             if i == nD and j == nT:
-                return True, ins, ''
+                return True, ins, '', None
             if (i, j) in seen:
                 continue
             seen.add((i, j))
@@ -261,19 +261,71 @@ def align(D, T, closers, allow_insert=True):
                             nxt[k] = ins + 1
         frontier = nxt
         if len(seen) > 400_000:
-            return True, -1, 'alignment search too large (skipped)'
-    i, j = best
-    if i < nD and (j >= nT or D[i] != T[j]):
-        # which side is off?  classify for the violation class
-        if D[i:i + 1] and D[i + 1:i + 9] and T[j:].startswith(D[i + 1:i + 9]):
-            why = 'lost-characters'
-        elif T[j + 1:].startswith(D[i:i + 8]) and D[i:i + 8]:
-            why = 'invented-characters'
-        else:
-            why = 'lost-characters' if nT < nD else 'invented-characters'
-    else:
-        why = 'invented-characters'
-    return False, 0, '%s at D[%d]=%r T[%d]=%r' % (why, i, D[i:i + 12], j, T[j:j + 12])
+            return True, -1, 'alignment search too large (skipped)', None
+    return _diagnose(D, T, closers if allow_insert else [], droppable)
+
+
+def _diagnose(D, T, closers, droppable):
+    """Cheapest explanation of T from D when no exact alignment exists:
+    matches, closer insertions and droppable whitespace are free; a lost
+    character of D or an invented character of T costs 1 (0-1 BFS)."""
+    from collections import deque
+    nD, nT = len(D), len(T)
+    dist = {(0, 0): (0, None)}
+    dq = deque([(0, 0)])
+    done = set()
+    end = None
+    while dq:
+        st = dq.popleft()
+        if st in done:
+            continue
+        done.add(st)
+        if len(done) > 250_000:
+            break
+        i, j = st
+        c = dist[st][0]
+        if i == nD and j == nT:
+            end = st
+            break
+        moves = []
+        if i < nD and j < nT and D[i] == T[j]:
+            moves.append(((i + 1, j + 1), 0, None))
+        if i < nD and droppable[i]:
+            moves.append(((i + 1, j), 0, None))
+        if j < nT:
+            for cl in closers:
+                if T.startswith(cl, j):
+                    moves.append(((i, j + len(cl)), 0, None))
+        if i < nD:
+            moves.append(((i + 1, j), 1, ('lost', i, j)))
+        if j < nT:
+            moves.append(((i, j + 1), 1, ('invented', i, j)))
+        for nxt, w, tag in moves:
+            nc = c + w
+            if nxt not in dist or dist[nxt][0] > nc:
+                dist[nxt] = (nc, (st, tag))
+                if w == 0:
+                    dq.appendleft(nxt)
+                else:
+                    dq.append(nxt)
+    if end is None:
+        return False, 0, 'altered-characters (alignment search too large to localise)', (0, 0)
+    edits = []
+    st = end
+    while dist[st][1] is not None:
+        prev, tag = dist[st][1]
+        if tag is not None:
+            edits.append(tag)
+        st = prev
+    edits.reverse()
+    lost = [e for e in edits if e[0] == 'lost']
+    inv = [e for e in edits if e[0] == 'invented']
+    why = 'lost-characters' if lost and not inv else 'invented-characters' if inv and not lost \
+        else 'altered-characters'
+    first = edits[0]
+    i, j = first[1], first[2]
+    return False, 0, '%s (%d lost, %d invented; first at D[%d]=%r T[%d]=%r)' % (
+        why, len(lost), len(inv), i, D[i:i + 12], j, T[j:j + 12]), (i, j)
 
 
 # ---------------------------------------------------------------------------
@@ -320,13 +372,14 @@ def execute(case, props=('C06', 'C07')):
             count('reader.not_drained')
 
     verdicts = {}
+    extra_summary = {}
     # ---------------- C06 ----------------
     if 'C06' in props:
         v = None
         for t in (0, 1):
             o = outs[t]
             if o.kind == 'leak':
-                v = {'class': 'leak:%s' % o.exc, 'detail': 'tolerance=%d raised %s at %s: %s'
+                v = {'class': 'leak:%s@%s' % (o.exc, (o.where or '?').split(':')[0]), 'detail': 'tolerance=%d raised %s at %s: %s'
                      % (t, o.exc, o.where, o.msg), 'tolerance': t}
             elif o.kind == 'hang':
                 v = {'class': 'hang', 'detail': 'tolerance=%d exceeded %d ticks on %d chars'
@@ -395,10 +448,27 @@ def execute(case, props=('C06', 'C07')):
                 count('c07.c.evaluated')
                 T = str(s1.soup)
                 names = env_names_of(s1.soup)
+                # an environment whose *name* is itself TeX (e.g. a broken
+                # \begin{\begin{) prints environments that only exist inside
+                # that name: collect their names by reading the name too
+                from TexSoup import TexSoup as _TS
+                pending = [n for n in names if '\\' in n]
+                for _ in range(3):
+                    nxt = []
+                    for n in pending:
+                        try:
+                            more = env_names_of(_TS(n, tolerance=1)) - names
+                        except Exception:  # noqa: BLE001
+                            more = set()
+                        names |= more
+                        nxt.extend(m for m in more if '\\' in m)
+                    pending = nxt
                 closers = ['}', ']'] + ['\\end{%s}' % n for n in sorted(names)]
-                ok, nins, why = align(D, T, closers, allow_insert=(s0.kind != 'tree'))
+                ok, nins, why, at = align(D, T, closers, allow_insert=(s0.kind != 'tree'))
                 if not ok:
                     cls = why.split(' ')[0]
+                    extra_summary.update({'D_at': D[at[0]:at[0] + 1], 'D_before': D[:at[0]],
+                                          'T_at': T[at[1]:at[1] + 12]})
                     v = {'class': cls, 'detail': 'tolerant output is not the input plus closers: '
                          + why + (' (strict parse succeeded: no insertion allowed)'
                                   if s0.kind == 'tree' else '')}
@@ -416,7 +486,7 @@ def execute(case, props=('C06', 'C07')):
     nontrivial = bool(applied) or case['mode'] in ('alphabet',)
     return {'verdicts': verdicts, 'log': log, 'digest': digest(log), 'counters': counters,
             'ticks': ticks, 'key': digest([D, case.get('skip_envs', [])]),
-            'nontrivial': nontrivial, 'D': D,
+            'nontrivial': nontrivial, 'D': D, 'extra_summary': extra_summary,
             'outcomes': [outs[0].brief(), outs[1].brief()]}
 
 
@@ -438,22 +508,38 @@ def minimize(case, fails):
     if cur.get('skip_envs') and fails(dict(cur, skip_envs=[])):
         cur['skip_envs'] = []
     if cur.get('recover'):
-        # keep the (intact wire, one fault) structure: shrink wire chunks that
-        # are not the faulted one, re-addressing the fault
-        at = cur['faults'][0]['at'] if cur['faults'] else None
-        wire = list(cur['wire'])
-        idx = list(range(len(wire)))
-
-        def test(keep):
-            if at is not None and at not in keep:
-                return False
-            w = [wire[i] for i in keep]
-            f = [dict(cur['faults'][0], at=keep.index(at))] if at is not None else []
-            return fails(dict(cur, wire=w, faults=f))
-        keep = ddmin_list(idx, test)
-        if at is not None:
-            cur['faults'] = [dict(cur['faults'][0], at=keep.index(at))]
-        cur['wire'] = [wire[i] for i in keep]
+        # Structural shrinking only: remove whole constructs (a leaf token or an
+        # opener..closer unit of the generator's syntax tree) that do not
+        # contain the faulted token, so the intact document stays inside the
+        # restricted grammar and the lost token stays a real closer.
+        if not cur.get('faults') or 'paths' not in cur:
+            return cur
+        changed = True
+        while changed:
+            changed = False
+            at = cur['faults'][0]['at']
+            paths = cur['paths']
+            units = {}
+            for i, pth in enumerate(paths):
+                for u in pth:
+                    units.setdefault(u, []).append(i)
+            order = sorted(units, key=lambda u: (-len(units[u]), u))
+            for u in order:
+                idx = units[u]
+                if at in idx and cur['faults'][0]['kind'] != 'EOF':
+                    continue
+                if cur['faults'][0]['kind'] == 'EOF' and idx[0] <= at <= idx[-1]:
+                    continue
+                drop = set(idx)
+                keep = [i for i in range(len(paths)) if i not in drop]
+                nat = sum(1 for i in keep if i < at)
+                cand = dict(cur, wire=[cur['wire'][i] for i in keep],
+                            paths=[paths[i] for i in keep],
+                            faults=[dict(cur['faults'][0], at=nat)])
+                if fails(cand):
+                    cur = cand
+                    changed = True
+                    break
         return cur
     # 3. fold the faults into the wire and shrink the delivered text directly
     delivered, applied = simreader.apply_faults(cur['wire'], cur.get('faults', []))
